@@ -97,3 +97,18 @@ Proof.
   rewrite (run_cb_map (fun x : Z * record => to_row (fst x) ci (snd x)) (stop_after (Some k)) l []).
   rewrite stop_after_firstn by (rewrite map_length; exact Hk). reflexivity.
 Qed.
+
+(* SelectRowid (and PKSelect on an INTEGER PRIMARY KEY): the low level lookup, mapped *)
+Theorem select_rowid_lookup pg op npages S (cb : row -> S -> flow * S) sc ms table columns rowid ci root s :
+  master pg op npages = (Continue, ms) -> s_worowid sc = false ->
+  to_ci_rowid sc columns = Ok ci -> find_root ms name_table table = Ok root ->
+  h_select_rowid pg op npages S cb sc table rowid columns s =
+  match table_rowid pg op npages root rowid with
+  | Ok None => (Continue, s)
+  | Ok (Some rec) => cb (to_row rowid ci rec) s
+  | Err e => (Fail e, s)
+  end.
+Proof.
+  intros Hm Hw Hci Hr. unfold h_select_rowid, with_master. rewrite Hm, Hw. unfold select_rowid_. rewrite Hci. cbn [bind]. rewrite Hr. cbn [bind].
+  destruct (table_rowid pg op npages root rowid) as [[rec|]|e]; reflexivity.
+Qed.
